@@ -67,6 +67,8 @@ fn method(c: &mut Cursor) -> Method {
                     let b = c.u8();
                     if b % 5 == 0 {
                         ReadStep::Interrupt
+                    } else if b % 17 == 1 {
+                        ReadStep::Error
                     } else {
                         ReadStep::Deliver(b)
                     }
@@ -319,6 +321,8 @@ pub fn run_filtered(target: &str, data: &[u8], only: Option<&str>) -> (&'static 
                 })
                 .collect();
             let cyclic = c.u8() % 2 == 0;
+            // One input in four changes the block size from call to call.
+            let blocks: Vec<u8> = if c.u8() % 4 == 0 { (0..2 + c.u8() % 3).map(|_| [0u8, 1, 2, 3, 4, 5, 6, 7, 8, 9, 12, 13, 14, 15][(c.u8() % 14) as usize]).collect() } else { vec![] };
             let max_size = if c.u8() % 3 == 0 { Some((c.u8(), c.u8() % 3)) } else { None };
             let limit = if c.u8() % 3 == 0 { Some((c.u8(), c.u8() % 3)) } else { None };
             let stream = StreamSpec {
@@ -332,6 +336,7 @@ pub fn run_filtered(target: &str, data: &[u8], only: Option<&str>) -> (&'static 
                 block,
                 arena_prep,
                 big_chunk: false,
+                blocks,
             };
             let mut results = vec![];
             if want("C08") {
@@ -380,7 +385,20 @@ pub fn run_filtered(target: &str, data: &[u8], only: Option<&str>) -> (&'static 
             first_err(results)
         }
         "sliding_deque" => {
-            let backing = [c15::Backing::Vec, c15::Backing::Small2, c15::Backing::Small4][(c.u8() % 3) as usize];
+            let backing = [
+                c15::Backing::Vec,
+                c15::Backing::Small2,
+                c15::Backing::Small4,
+                c15::Backing::Vec,
+                c15::Backing::Small2,
+                c15::Backing::Small4,
+                c15::Backing::VecUnit,
+                c15::Backing::SmallUnit4,
+                c15::Backing::VecU64,
+                c15::Backing::SmallU64x2,
+                c15::Backing::VecWide,
+                c15::Backing::SmallPair3,
+            ][(c.u8() % 12) as usize];
             let n_init = (c.u8() % 12) as usize;
             let init = (0..n_init).map(|_| c.u8()).collect();
             // (large deques are the `large` group's business: under AddressSanitizer every step of a big one costs milliseconds)
